@@ -28,6 +28,9 @@ type RoutineContainer struct {
 	routine *runningRoutine
 	// retryBo is the retry backoff if retrying is enabled.
 	retryBo cbackoff.BackOff
+	// removedExitedCh is the exited channel of the most recently removed
+	// routine while no routine is set: it may still be exiting.
+	removedExitedCh <-chan struct{}
 }
 
 // NewRoutineContainer constructs a new RoutineContainer.
@@ -160,11 +163,15 @@ func (k *RoutineContainer) setRoutineLocked(routine Routine, broadcast func()) (
 	}
 
 	var prevExitedCh <-chan struct{}
+	// waitCh is the channel the new routine waits for before starting
+	waitCh := k.removedExitedCh
+	k.removedExitedCh = nil
 	prevRoutine := k.routine
 	var wasReset bool
 	if prevRoutine != nil {
 		wasReset = k.ctx != nil && !prevRoutine.exited
 		prevExitedCh = prevRoutine.exitedCh
+		waitCh = prevExitedCh
 		if prevRoutine.ctxCancel != nil {
 			prevRoutine.ctxCancel()
 			prevRoutine.ctxCancel = nil
@@ -176,14 +183,18 @@ func (k *RoutineContainer) setRoutineLocked(routine Routine, broadcast func()) (
 		r := newRunningRoutine(k, routine)
 		k.routine = r
 		if k.ctx != nil {
-			k.routine.start(k.ctx, prevExitedCh, false)
+			k.routine.start(k.ctx, waitCh, false)
 		} else {
 			// wait for the previous routine to exit when starting later
-			r.exitedCh = prevExitedCh
+			r.exitedCh = waitCh
 		}
 		broadcast()
-	} else if wasReset {
-		broadcast()
+	} else {
+		// the removed routine may still be exiting when the next one is set
+		k.removedExitedCh = waitCh
+		if wasReset {
+			broadcast()
+		}
 	}
 
 	return prevExitedCh, wasReset
